@@ -26,7 +26,8 @@ NoDiag == [have |-> FALSE, ver |-> 0, lines |-> <<>>]
 
 ReqMethods == {"initialize", "shutdown", "textDocument/hover", "textDocument/completion",
                "textDocument/formatting", "textDocument/documentSymbol", "textDocument/signatureHelp",
-               "textDocument/codeAction", "workspace/unknownMethod"}
+               "textDocument/codeAction", "workspace/unknownMethod",
+               "$/unknownRequest"}      \* a request (it has an id) in the protocol-reserved namespace: answered like any other
 PosKinds == {"inrange", "pastEnd", "negative"}
 ParamKinds == {"ok", "wrongShape", "missing"}
 
@@ -168,7 +169,8 @@ Inert(m, prm) ==
 Malformed(f) ==
     /\ Running
     /\ f \in {"invalidJsonWithId", "invalidJson", "jsonArray", "jsonString", "idNoMethod", "idNullWithMethod",
-              "headerZeroLength", "headerNonNumeric", "headerOversize", "headerExtraField", "emptyObject"}
+              "headerZeroLength", "headerNonNumeric", "headerOversize", "headerNegative", "headerNoLength",
+              "headerExtraField", "emptyObject"}
     /\ out' = IF f \in {"invalidJsonWithId", "idNoMethod"} THEN [NoOut EXCEPT !.may = <<nextId>>]
               ELSE IF f = "headerExtraField" THEN [NoOut EXCEPT !.must = <<nextId>>]   \* a valid request with one more header
               ELSE NoOut
@@ -180,7 +182,7 @@ Exit == /\ Running /\ phase' = "exited" /\ out' = NoOut /\ UNCHANGED <<docs, dia
         /\ Log([m |-> "exit", kind |-> "notification", out |-> out', docs |-> docs, diag |-> diag])
 
 Next == \/ \E m \in ReqMethods, u \in URIs, pk \in PosKinds, prm \in ParamKinds :
-              /\ (m \in {"initialize", "shutdown", "workspace/unknownMethod"} => pk = "inrange" /\ u = CHOOSE x \in URIs : TRUE)
+              /\ (m \in {"initialize", "shutdown", "workspace/unknownMethod", "$/unknownRequest"} => pk = "inrange" /\ u = CHOOSE x \in URIs : TRUE)
               /\ (prm # "ok" => pk = "inrange")
               /\ Request(m, u, pk, prm)
         \/ \E u \in URIs, ls \in LineSeqs, v \in 1..2 : Open(u, ls, v)
@@ -189,7 +191,8 @@ Next == \/ \E m \in ReqMethods, u \in URIs, pk \in PosKinds, prm \in ParamKinds 
         \/ \E m \in {"initialized", "$/unknownNotification", "textDocument/didOpen", "textDocument/didChange",
                      "textDocument/didClose", "textDocument/didSave"}, prm \in ParamKinds : Inert(m, prm)
         \/ \E f \in {"invalidJsonWithId", "invalidJson", "jsonArray", "jsonString", "idNoMethod", "idNullWithMethod",
-                     "headerZeroLength", "headerNonNumeric", "headerOversize", "headerExtraField", "emptyObject"} : Malformed(f)
+                     "headerZeroLength", "headerNonNumeric", "headerOversize", "headerNegative", "headerNoLength",
+              "headerExtraField", "emptyObject"} : Malformed(f)
         \/ Exit
 
 Spec == Init /\ [][Next]_vars
